@@ -30,6 +30,7 @@ RULE = (
     ' Round 6: backup name equal to the input/output name up to letter case.'
     " Round 7: UTF-8 BOM with cp1252 tried first, edits of a chart's extra components only."
     ' Round 8: a stale file under the backup name.'
+    ' Round 9: a text of exactly 65536 characters at block exit.'
 )
 ASSUMPTIONS = ["Python codecs", "MemoryFS is an honest in-memory filesystem"]
 MONITORS = ["detection", "loaded_content", "mutate_output", "mutate_backup", "input_untouched", "no_other_file",
